@@ -40,6 +40,7 @@ CheckMsg(r) ==
         sidx == { fs[j].s : j \in DOMAIN fs }
     IN
     /\ Must(r.hasctor = 1 /\ r.hastype = 1, w @@ [what |-> "known message without constructor or type"])
+    /\ Must(r.ctortype = r.name, w @@ [what |-> "the constructor registered for the message builds another message type", observed |-> r.ctortype])
     /\ Must(Cardinality(sidx) = Len(fs), w @@ [what |-> "two field numbers share a struct field"])
     /\ Must(sidx = 0..(r.nf - 1), w @@ [what |-> "struct indices not dense in 0..NumField-1", indices |-> sidx, numfield |-> r.nf])
     /\ \A j \in DOMAIN fs :
